@@ -48,6 +48,8 @@ from django_components.expression import DynamicFilterExpression, is_dynamic_exp
 TAG_WHITESPACE = (" ", "\t", "\n", "\r", "\f")
 TAG_FILTER = ("|", ":")
 TAG_SPREAD = ("*", "**", "...")
+# Lists and dicts are serialized and resolved recursively, so we cap how deeply they may be nested
+MAX_NESTING_DEPTH = 100
 
 
 @dataclass
@@ -589,6 +591,9 @@ def parse_tag(text: str, parser: Optional[Parser]) -> Tuple[str, List[TagAttr]]:
             take_while(TAG_WHITESPACE)
 
             curr_value = stack[-1]
+
+            if len(stack) > MAX_NESTING_DEPTH:
+                raise TemplateSyntaxError(f"Lists and dicts cannot be nested more than {MAX_NESTING_DEPTH} levels deep")
 
             # Manage state with regards to lists and dictionaries
             if is_next_token(["[", "...[", "*[", "**["]):
